@@ -130,6 +130,11 @@ pub fn check(mut ctx: Ctx, replay: Option<J>) -> ! {
     tool_error(&format!("Trace_C01 failed: {}", out.error_text));
   }
   let unspec = out.counters("UNSPEC").len() as u64;
+  if let Ok(path) = std::env::var("VERIF_DUMP_UNSPEC") {
+    // development aid: which cases does the specification leave open?
+    let text: String = out.counters("UNSPEC").iter().filter_map(|i| recs.get((*i - 1) as usize)).map(|r| format!("{}\t{}\n", r["text"].as_str().unwrap_or(""), r["scope"])).collect();
+    let _ = std::fs::write(path, text);
+  }
   // classification by the specification itself: the rejected cases are judged again with the one relaxation
   // "an iteration over several variables with an empty domain is unspecified"; those that then pass are
   // attributable to that (known) defect, the others are not
